@@ -123,7 +123,7 @@ impl std::hash::Hasher for CallHasher {
 }
 
 /// the value's hash under three hashers (SipHash, word-wise, call-sensitive)
-pub fn h<T: Hash>(t: &T) -> (u64, u64, u64) {
+pub fn h<T: Hash + ?Sized>(t: &T) -> (u64, u64, u64) {
     use std::hash::Hasher;
     let mut s = DefaultHasher::new();
     t.hash(&mut s);
@@ -274,6 +274,23 @@ fn check_tag_pair(values: &[(Tag, String)], p: &Pair) -> CaseResult {
     if hm.contains_key(b) != same || bm.contains_key(b) != same || hs.contains(b) != same {
         r.fail(format!("map/set lookup of {b:?} in a collection holding {a:?} is wrong (same name: {same})"));
     }
+    // ... and as parts of composite keys: slices, vectors and arrays hash through `Hash::hash_slice`,
+    // tuples / Option / Box through `hash` of the element
+    if same {
+        let (va, vb) = (vec![a.clone(), a.clone()], vec![b.clone(), b.clone()]);
+        let (xa, xb) = ([a.clone()], [b.clone()]);
+        if va != vb || h(&va) != h(&vb) || h(&va[..]) != h(&vb[..]) || h(&xa) != h(&xb) {
+            r.fail(format!("vectors / slices / arrays of the equal tags {a:?} and {b:?} differ or hash differently"));
+        }
+        if h(&(a.clone(), 7u8)) != h(&(b.clone(), 7u8)) || h(&Some(a.clone())) != h(&Some(b.clone())) || h(&Box::new(a.clone())) != h(&Box::new(b.clone())) {
+            r.fail(format!("tuples / options / boxes holding the equal tags {a:?} and {b:?} hash differently"));
+        }
+        let mut keyed: HashSet<Vec<Tag>> = HashSet::new();
+        keyed.insert(va);
+        if !keyed.contains(&vb) {
+            r.fail(format!("a set of tag lists holding [{a:?}, {a:?}] does not find the equal list [{b:?}, {b:?}]"));
+        }
+    }
     // the same with a map that uses a word-wise hasher (what the popular fast hash maps do)
     let mut wm: HashMap<Tag, i32, std::hash::BuildHasherDefault<WordHasher>> = HashMap::default();
     wm.insert(a.clone(), 1);
@@ -310,6 +327,17 @@ fn check_subsystem_pair(values: &[(Subsystem, String)], p: &Pair) -> CaseResult 
     if hm.contains_key(b) != same || hs.contains(b) != same {
         r.fail(format!("map/set lookup of {b:?} in a collection holding {a:?} is wrong"));
     }
+    if same {
+        let (va, vb) = (vec![a.clone(), a.clone()], vec![b.clone(), b.clone()]);
+        if va != vb || h(&va) != h(&vb) || h(&va[..]) != h(&vb[..]) || h(&[a.clone()]) != h(&[b.clone()]) || h(&(a.clone(), 7u8)) != h(&(b.clone(), 7u8)) || h(&Some(a.clone())) != h(&Some(b.clone())) {
+            r.fail(format!("lists / tuples / options of the equal subsystems {a:?} and {b:?} differ or hash differently"));
+        }
+        let mut keyed: HashSet<Vec<Subsystem>> = HashSet::new();
+        keyed.insert(va);
+        if !keyed.contains(&vb) {
+            r.fail(format!("a set of subsystem lists holding [{a:?}, {a:?}] does not find the equal list [{b:?}, {b:?}]"));
+        }
+    }
     r
 }
 
@@ -320,7 +348,7 @@ fn subsystem_values() -> Vec<(Subsystem, String)> {
         out.push((Subsystem::Other(n.into()), n.to_string()));
         out.push((Subsystem::Other(n.to_uppercase().into()), n.to_uppercase()));
     }
-    for n in ["queue", "Player", "foo", "", "stored-playlist"] {
+    for n in ["queue", "Player", "foo", "", "stored-playlist", "storedplaylist", "StoredPlaylist", "neighbour", "Queue"] {
         out.push((Subsystem::Other(n.into()), n.to_string()));
     }
     out
@@ -402,6 +430,12 @@ fn tag_string() -> impl Strategy<Value = String> {
             s
         }),
         1 => Just(String::new()),
+        // the Rust identifier of a named variant (`AlbumArtist`, `MusicBrainzRecordingId`, ...) in several
+        // letter cases: where it is not itself a protocol name it is an unknown name like any other
+        2 => (0..table.len(), 0..4u8).prop_map(move |(i, how)| {
+            let ident = format!("{:?}", table[i].0);
+            match how { 0 => ident, 1 => ident.to_lowercase(), 2 => ident.to_uppercase(), _ => alternating(&ident) }
+        }),
         // a known name with one letter replaced by a non-ASCII character that Unicode case mapping
         // turns into that letter (KELVIN SIGN -> k, LONG S -> S, dotless/dotted I, fullwidth forms)
         2 => (0..names3.len(), any::<u16>(), any::<u8>()).prop_map(move |(i, at, pick)| {
